@@ -21,6 +21,9 @@ def main():
     ap.add_argument("--tier", default=None)
     ap.add_argument("--replay", default=None)
     ap.add_argument("--no-confirm", action="store_true")
+    ap.add_argument("--no-history", dest="with_history", action="store_false",
+                    help="replay the case alone, without the process history "
+                         "recorded with it")
     args = ap.parse_args()
     tier = os.environ.get("VERIF_TIER") or args.tier or "quick"
     if tier not in ("quick", "thorough"):
@@ -44,7 +47,17 @@ def main():
     if args.replay:
         with open(args.replay, encoding="utf-8") as fh:
             doc = json.load(fh)
-        fail = mod.replay(doc["case"])
+        if doc.get("needs_history") and args.with_history \
+                and hasattr(mod, "plan"):
+            # the case alone holds in a fresh process (the reporting run
+            # found that out): replay it after the process history it was
+            # observed with - and with nothing else done before
+            fail = core.replay_history(mod, doc)
+        else:
+            fail = mod.replay(doc["case"])
+        if fail is not None and doc.get("needs_history"):
+            print("replay: reproduced after the recorded process history "
+                  "(%d shards)" % len(doc["history"]))
         if fail is None:
             print("replay: property %s holds on this case" % mod.ID)
             return 0
@@ -92,22 +105,54 @@ def main():
     # a violation must reproduce in a fresh process before it is reported
     reported = []
     nondeterministic = []
+    needs_history = []
     for f in violations[:core.MAX_REPLAY_CLASSES]:
-        path = core.write_replay(mod, f)
+        path = core.write_replay(mod, f, tier)
         if args.no_confirm or os.environ.get("VERIF_NO_CONFIRM"):
             reported.append(path)
             continue
         env = dict(os.environ)
         rc = subprocess.run(
-            [sys.executable, "-B", "-m", "vkit.run", mod.ID, "--replay", path],
+            [sys.executable, "-B", "-m", "vkit.run", mod.ID, "--replay", path,
+             "--no-history"],
             env=env, stdout=subprocess.PIPE, stderr=subprocess.PIPE,
             stdin=subprocess.DEVNULL, check=False, cwd=core.VERIF)
+        if rc.returncode == 1:
+            reported.append(path)
+        elif rc.returncode == 0 and f.get("history"):
+            with open(path, encoding="utf-8") as fh:
+                rdoc = json.load(fh)
+            rdoc["needs_history"] = True
+            with open(path, "w", encoding="utf-8") as fh:
+                json.dump(rdoc, fh, indent=1, default=repr)
+                fh.write("\n")
+            needs_history.append(path)
+        else:
+            nondeterministic.append((path, rc.returncode,
+                                     rc.stdout.decode()[-500:],
+                                     rc.stderr.decode()[-500:]))
+    # cases which hold when replayed alone: the failure may need the process
+    # history of the worker which saw it (a cache, a class attribute).  Up to
+    # three of them are replayed with that history in a fresh process; one
+    # which still does not reproduce is a harness error.
+    needs_history.sort(key=lambda p: len(json.load(open(p))["history"]))
+    for path in needs_history[:3]:
+        rc = subprocess.run(
+            [sys.executable, "-B", "-m", "vkit.run", mod.ID, "--replay", path],
+            env=dict(os.environ), stdout=subprocess.PIPE,
+            stderr=subprocess.PIPE, stdin=subprocess.DEVNULL, check=False,
+            cwd=core.VERIF)
         if rc.returncode == 1:
             reported.append(path)
         else:
             nondeterministic.append((path, rc.returncode,
                                      rc.stdout.decode()[-500:],
                                      rc.stderr.decode()[-500:]))
+    for path in needs_history[3:]:
+        try:
+            os.unlink(path)        # not individually confirmed: not reported
+        except OSError:
+            pass
 
     exhaustive = stats.capped is None
     wall = core.now() - t0
